@@ -9,7 +9,11 @@ a *variation model* that, evaluated at a master's location, returns that master'
 * `DeltaModel`: fontTools' construction — support scalars per master (in model order), deltas by the triangular
   recursion of `VariationModel.getDeltas`, interpolation `Σ scalar_j(loc) · delta_j` — for which the law is PROVED
   (Props/C10.lean) from the two facts `S_i(loc_i) = 1` and `S_j(loc_i) = 0` for `j > i`.
-* the one-axis instance: `region1` mirrors `_locationsToRegions` + `_computeMasterSupports` and `scalar1` mirrors
+* the n-axis model (second half of this file): `VariationModel.__init__` = `variationModel` (normalisation, the master order
+  `getMasterLocationsSortKeyFunc` = `sortN`, `_locationsToRegions` + `_computeMasterSupports` = `regionOf`/`supportsN` with the
+  box-narrowing loop and its bestAxes ratio rule, `supportScalar`, `getDeltas`, `interpolateFromDeltas`); the two support facts
+  and hence the law are proved for any number of axes and masters in Props/C10Var.lean.
+* the one-axis instance (proved to be the one-axis case of the n-axis definitions): `region1` mirrors `_locationsToRegions` + `_computeMasterSupports` and `scalar1` mirrors
   `supportScalar` (ot=True, no extrapolation) for a single axis with range (-1, 1); the two facts are proved for any
   number of masters in any order that starts with the default.
 -/
@@ -89,5 +93,187 @@ def keyLe1 (a b : Q) : Bool :=
   let ka := sortKey1 a; let kb := sortKey1 b
   if ka.1 != kb.1 then ka.1 < kb.1 else if ka.2.1 != kb.2.1 then ka.2.1 < kb.2.1 else ka.2.2 ≤ kb.2.2
 def sort1 (ls : List Q) : List Q := ls.mergeSort keyLe1
+
+
+/-! ### n axes
+
+`fontTools.varLib.models.VariationModel(locations, axisOrder)` with `extrapolate=False`, `axisRanges=None` (every axis has the
+range (-1, 1)) on exact rationals.  A location / a support is a Python dict: an association list whose keys are pairwise
+different (`NLoc` : axis ↦ normalised coordinate, a missing axis = 0; `Region` : axis ↦ (lower, peak, upper)). -/
+
+abbrev NLoc := List (String × Q)
+abbrev Triple := Q × Q × Q
+abbrev Region := List (String × Triple)
+
+/-- `location.get(axis, 0.0)` -/
+def coord (l : NLoc) (a : String) : Q := (alookup a l).getD 0
+
+/-- `{k: v for k, v in loc.items() if v != 0.0}` -/
+def dropZeros (l : NLoc) : NLoc := l.filter (fun e => e.2 != 0)
+
+/-- `supportScalar(location, support)` (ot=True, extrapolate=False): the loop over `support.items()` with its running product;
+    `scalar = 0.0; break` returns 0 -/
+def supportScalarGo (loc : NLoc) (scalar : Q) : Region → Q
+  | [] => scalar
+  | (axis, lower, peak, upper) :: rest =>
+    if peak == 0 then supportScalarGo loc scalar rest
+    else if lower > peak || peak > upper then supportScalarGo loc scalar rest
+    else if lower < 0 && upper > 0 then supportScalarGo loc scalar rest
+    else
+      let v := coord loc axis
+      if v == peak then supportScalarGo loc scalar rest
+      else if v ≤ lower || upper ≤ v then 0
+      else if v < peak then supportScalarGo loc (scalar * ((v - lower) / (peak - lower))) rest
+      else supportScalarGo loc (scalar * ((v - upper) / (peak - upper))) rest
+
+def supportScalar (loc : NLoc) (sup : Region) : Q := supportScalarGo loc 1 sup
+
+/-- the tent of one axis as a factor (1 = the axis is skipped); `supportScalar` is the product of these (Props/C10Var) -/
+def axisFactor (loc : NLoc) (e : String × Triple) : Q :=
+  scalar1 (some e.2) (coord loc e.1)
+
+def keysOf {ν : Type} (d : List (String × ν)) : List String := d.map (·.1)
+
+/-- `set(a) == set(b)` on key lists -/
+def sameKeys (a b : List String) : Bool := a.all (fun x => b.contains x) && b.all (fun x => a.contains x)
+
+/-- Python dict equality of two locations -/
+def dictEq (p l : NLoc) : Bool := sameKeys (keysOf p) (keysOf l) && p.all (fun e => alookup e.1 l == some e.2)
+
+/-- `len(set(tuple(sorted(l.items())) for l in locations)) == len(locations)` -/
+def allDistinct : List NLoc → Bool
+  | [] => true
+  | l :: rest => rest.all (fun p => !dictEq l p) && allDistinct rest
+
+/-! #### `getMasterLocationsSortKeyFunc` -/
+
+/-- `axisPoints` (a dict axis ↦ set of values, every set containing 0.0) as the list of its (axis, non-zero value) members:
+    one entry per location with exactly one axis -/
+def axisPointsOf (locs : List NLoc) : List (String × Q) :=
+  locs.filterMap (fun l => match l with | [e] => some e | _ => none)
+
+/-- `axis in axisPoints and value in axisPoints[axis]` -/
+def onPoint (ap : List (String × Q)) (e : String × Q) : Bool :=
+  ap.any (fun x => x.1 == e.1) && (e.2 == 0 || ap.any (fun x => x.1 == e.1 && x.2 == e.2))
+
+/-- `orderedAxes`: the axes of `axisOrder` present in `loc`, then the other axes of `loc` sorted by name -/
+def orderedAxes (axisOrder : List String) (loc : NLoc) : List String :=
+  axisOrder.filter (fun a => (keysOf loc).contains a) ++ (sortStr (keysOf loc)).filter (fun a => !axisOrder.contains a)
+
+def sgn (v : Q) : Int := if v < 0 then -1 else if v > 0 then 1 else 0
+
+/-- the key tuple: (rank, -len(onPointAxes), axisOrder indexes, axis names, signs, absolute values) -/
+abbrev SortKey := Nat × Int × List Nat × List String × List Int × List Q
+
+def sortKeyN (ap : List (String × Q)) (axisOrder : List String) (loc : NLoc) : SortKey :=
+  let oa := orderedAxes axisOrder loc
+  (loc.length,
+   -((loc.filter (onPoint ap)).length : Int),
+   oa.map (fun a => if axisOrder.contains a then axisOrder.idxOf a else 0x10000),
+   oa,
+   oa.map (fun a => sgn (coord loc a)),
+   oa.map (fun a => absQ (coord loc a)))
+
+def cmpQ (a b : Q) : Ordering := if a < b then .lt else if b < a then .gt else .eq
+
+/-- Python's comparison of the key tuples: lexicographic, tuples inside compared lexicographically -/
+def cmpKeyN (a b : SortKey) : Ordering :=
+  (compare a.1 b.1).then <|
+  (compare a.2.1 b.2.1).then <|
+  (List.compareLex compare a.2.2.1 b.2.2.1).then <|
+  (List.compareLex compare a.2.2.2.1 b.2.2.2.1).then <|
+  (List.compareLex compare a.2.2.2.2.1 b.2.2.2.2.1).then <|
+  (List.compareLex cmpQ a.2.2.2.2.2 b.2.2.2.2.2)
+
+def keyLeN (ap : List (String × Q)) (axisOrder : List String) (a b : NLoc) : Bool :=
+  (cmpKeyN (sortKeyN ap axisOrder a) (sortKeyN ap axisOrder b)).isLE
+
+/-- `sorted(locations, key=keyFunc)` (both sorts are stable) -/
+def sortN (axisOrder : List String) (locs : List NLoc) : List NLoc :=
+  locs.mergeSort (keyLeN (axisPointsOf locs) axisOrder)
+
+/-! #### `_locationsToRegions` + `_computeMasterSupports` -/
+
+def initRegion (l : NLoc) : Region :=
+  l.map (fun e => if e.2 > 0 then (e.1, 0, e.2, 1) else (e.1, -1, e.2, 0))
+
+/-- the `relevant` loop: the earlier master lies, on every axis, at the peak or strictly inside the current box -/
+def relevant (region : Region) (p : NLoc) : Bool :=
+  region.all (fun e => coord p e.1 == e.2.2.1 || (e.2.1 < coord p e.1 && coord p e.1 < e.2.2.2))
+
+/-- `if ratio > bestRatio: bestAxes = {}; bestRatio = ratio` / `if ratio == bestRatio: bestAxes[axis] = triple` -/
+def bestUpd (acc : List (String × Triple) × Q) (axis : String) (t : Triple) (ratio : Q) : List (String × Triple) × Q :=
+  let acc' := if ratio > acc.2 then ([], ratio) else acc
+  if ratio == acc'.2 then (acc'.1 ++ [(axis, t)], acc'.2) else acc'
+
+/-- one round of `for axis in prev_region.keys()` -/
+def bestStep (region : Region) (acc : List (String × Triple) × Q) (e : String × Q) : List (String × Triple) × Q :=
+  match alookup e.1 region with
+  | none => acc                                                  -- `assert axis in region`
+  | some (lower, locV, upper) =>
+    if e.2 < locV then bestUpd acc e.1 (e.2, locV, upper) ((e.2 - locV) / (lower - locV))
+    else if locV < e.2 then bestUpd acc e.1 (lower, locV, e.2) ((e.2 - locV) / (upper - locV))
+    else acc
+
+def bestAxes (region : Region) (p : NLoc) : List (String × Triple) := (p.foldl (bestStep region) ([], -1)).1
+
+/-- `for axis, triple in bestAxes.items(): region[axis] = triple` -/
+def applyBest (region : Region) (best : List (String × Triple)) : Region :=
+  region.map (fun e => match alookup e.1 best with | some t => (e.1, t) | none => e)
+
+/-- the body of `for prev_region in regions[:i]` (only the keys and peaks of the earlier region are read = its location) -/
+def narrow (region : Region) (p : NLoc) : Region :=
+  if !sameKeys (keysOf p) (keysOf region) then region
+  else if !relevant region p then region
+  else applyBest region (bestAxes region p)
+
+/-- the support of a master given the earlier masters (in model order) -/
+def regionOf (prev : List NLoc) (l : NLoc) : Region := prev.foldl narrow (initRegion l)
+
+def supportsNGo (prev : List NLoc) : List NLoc → List Region
+  | [] => []
+  | l :: rest => regionOf prev l :: supportsNGo (prev ++ [l]) rest
+
+/-- `self.supports` for masters in model order -/
+def supportsN (ls : List NLoc) : List Region := supportsNGo [] ls
+
+/-- the support scalar functions `loc ↦ supportScalar(loc, support_j)` -/
+def scalarsN (ls : List NLoc) : List (NLoc → Q) := (supportsN ls).map (fun r x => supportScalar x r)
+
+/-- `getDeltas` for master values in model order -/
+def deltasN (ls : List NLoc) (vs : List Q) : List Q := deltas ((scalarsN ls).zip (ls.zip vs))
+
+/-- `interpolateFromDeltas(x, getDeltas(vs))`, masters in model order -/
+def interpolateN (ls : List NLoc) (x : NLoc) (vs : List Q) : Q := interpolate (scalarsN ls) ls x vs
+
+/-! #### the constructor and the user's master order -/
+
+structure VModel where
+  locations : List NLoc          -- `self.locations` (model order)
+  supports : List Region         -- `self.supports`
+  reverseMapping : List Nat      -- `self.reverseMapping`: position in the user's list of the master at each model position
+  deriving Repr
+
+/-- `VariationModel.__init__`.  Errors: "unique" (`Locations must be unique.`), "nobase" (`Base master not found.`);
+    "outside": two locations that differ only by explicit zeros (`{'wght': 0}` / `{}`) - not rejected by fontTools, outside
+    this model's contract (varLib always passes locations over all axes). -/
+def variationModel (axisOrder : List String) (locations : List NLoc) : Except String VModel :=
+  if !allDistinct locations then .error "unique"
+  else
+    let locs := locations.map dropZeros
+    if !locs.contains [] then .error "nobase"
+    else if !allDistinct locs then .error "outside"
+    else
+      let sorted := sortN axisOrder locs
+      .ok { locations := sorted, supports := supportsN sorted,
+            reverseMapping := sorted.map (fun l => locs.findIdx (fun p => dictEq p l)) }
+
+/-- `getDeltas(masterValues)`: master values in the USER's order -/
+def VModel.getDeltas (m : VModel) (masterValues : List Q) : List Q :=
+  deltasN m.locations (m.reverseMapping.map (fun k => masterValues.getD k 0))
+
+/-- `interpolateFromDeltas(loc, getDeltas(masterValues))` -/
+def VModel.interpolateFromMasters (m : VModel) (x : NLoc) (masterValues : List Q) : Q :=
+  interpolateN m.locations x (m.reverseMapping.map (fun k => masterValues.getD k 0))
 
 end Ufo2ft.C10
